@@ -13,9 +13,10 @@ META = {
              "strictly increasing versions and growing proposals / signer sets, rounds never go back; STATE-MACHINE stream - within an "
              "entrance the delivered views start above the entrance answer with strictly increasing versions and growing content, "
              "jump-aheads are for a later round / height; CURRENCY - after an empty state-machine read the manager's last sent version "
-             "is the kernel view's version (full); after an empty gossip read all three slots equal the kernel's views (for histories "
-             "whose accepted replays settle their round; refuted otherwise by a witness needing double-signed precommits of majority "
-             "power). A rejected replay is the identity (after the repo fix found by these proofs). Refuted: nil-voted-round votes reach "
+             "is the kernel view's version; after an empty gossip read all three slots EQUAL the kernel's views; every change of a kernel "
+             "view is a version bump marked to the managers in the same step (all full, all four operations). Two earlier refutations "
+             "(a rejected replay leaving a header behind; an accepted replay not marking the view) reproduced on the real mirror and "
+             "were repaired there. Refuted: nil-voted-round votes reach "
              "gossip (known finding: single slot); versions across a restart. Monitored on every run against the real mirror (harness "
              "= state machine + gossip reader with random read timing, also across crashes/restarts, and under CONCURRENT callers of "
              "Handle*): both streams strictly newer and growing, jump-aheads ordered, currency after quiescence. Round-session changes "
